@@ -6,6 +6,7 @@ a comma is an inner comma (COMMAT) exactly while the counter is positive, the ty
 in-order concatenation of its tokens, sizes (n), (p,s), (max), (n CHAR), (*,s) are reported."""
 from contracts.base import contract
 from contracts.lib import IDENT, DIGITS, lexer_flags, production
+from contracts.lib import PARSE_PROPS
 
 TID_VALUE = r"[a-zA-Z_,0-9:><\/\\=\-+~%$@#|&?;*()!{}\[\]`]+"
 
@@ -17,7 +18,7 @@ def count_char(s, c):
 @contract
 class BracketCounter:
     fn = "ddl_parser.DDLParser.get_tag_symbol_value_and_increment"
-    props = ["C09"]
+    props = PARSE_PROPS
     cases = {"outside-check": {}}
 
     def build(G, case):
@@ -40,7 +41,7 @@ class BracketCounter:
 class TagSymbolsDetected:
     """every token containing < or > goes through the bracket counter (outside CHECK)"""
     fn = "ddl_parser.DDLParser.parse_tags_symbols"
-    props = ["C09"]
+    props = PARSE_PROPS
     cases = {"outside-check": {}}
 
     def build(G, case):
@@ -61,7 +62,7 @@ class TagSymbolsDetected:
 @contract
 class CommaInsideBrackets:
     fn = "ddl_parser.DDLParser.commat_type"
-    props = ["C09"]
+    props = PARSE_PROPS
     cases = {"any-token": {}}
 
     def build(G, case):
@@ -82,7 +83,7 @@ def tid_piece(i):
 @contract
 class PTid:
     fn = "dialects.sql.BaseSQL.p_tid"
-    props = ["C09"]
+    props = PARSE_PROPS
     cases = {"LT": dict(first=True), "LT id": dict(first=True), "tid LT": dict(first=False), "tid id": dict(first=False),
              "tid COMMAT": dict(first=False), "tid RT": dict(first=False)}
 
@@ -115,7 +116,7 @@ class PTid:
 @contract
 class GetSize:
     fn = "dialects.sql.Column.get_size"
-    props = ["C09", "C01"]
+    props = PARSE_PROPS
     cases = {"(n)": dict(form="n"), "(max)": dict(form="max"), "(p,s)": dict(form="ps"), "(*,s)": dict(form="star"), "(n CHAR)": dict(form="nchar")}
 
     def build(G, case):
@@ -152,7 +153,7 @@ def column_value(G, name="col"):
 class PColumnSizes:
     """column LP ... RP: the size forms of the statement, on a column value as built by `id c_type`"""
     fn = "dialects.sql.Column.p_column"
-    props = ["C09", "C01"]
+    props = PARSE_PROPS
     cases = {
         "column LP id RP": dict(form="n"),
         "column LP id RP max": dict(form="max", alt="column LP id RP"),
@@ -208,7 +209,7 @@ class PColumnSizes:
 class PCTypeAngle:
     """c_type : tid | c_type tid | id id tid...: the bracket part assembled by p_tid is appended to the type text in order"""
     fn = "dialects.sql.Column.p_c_type"
-    props = ["C09"]
+    props = PARSE_PROPS
     observable = "result"
     cases = {"tid": dict(kind="tid"), "c_type tid": dict(kind="ctype_tid")}
 
